@@ -303,6 +303,25 @@ def simC [DecidableEq T] (cfg : Cfg R T) (d : Disk R T) (c : Clock) (outs : List
       t.results, t.reps, t.rest, t.clock, none⟩
   | some e => ⟨t.trace, t.results, t.reps, t.rest, t.clock, some e⟩
 
+/-- `simulate(param_variation_index)`: only variation `i` is run and only its partial-results
+    file is written (no final results file); an index outside `0 … n-1` runs nothing -/
+def simSingleC [DecidableEq T] (cfg : Cfg R T) (i : Nat) (d : Disk R T) (c : Clock)
+    (outs : List (Outcome R)) : RunEnd R T :=
+  if i < cfg.nvar then simVarsC cfg [i] d c outs else ⟨[], [], [], outs, c, none⟩
+
+/-- `simulate(0)`, `simulate(1)`, …, `simulate(k-1)` one after the other (the "one job per
+    variation" use): stops at the first call that does not return normally -/
+def simSinglesC [DecidableEq T] (cfg : Cfg R T) :
+    List Nat → Disk R T → Clock → List (Outcome R) → RunEnd R T
+  | [], _, c, outs => ⟨[], [], [], outs, c, none⟩
+  | i :: is, d, c, outs =>
+    let t := simSingleC cfg i d c outs
+    match t.status with
+    | some e => ⟨t.trace, t.results, t.reps, t.rest, t.clock, some e⟩
+    | none =>
+      let u := simSinglesC cfg is (d.applyAll t.trace) t.clock t.rest
+      ⟨t.trace ++ u.trace, t.results ++ u.results, t.reps ++ u.reps, u.rest, u.clock, u.status⟩
+
 /-- the disk left behind by a run that is killed after `k` events -/
 def crashDisk (d : Disk R T) (trace : List (Ev R T)) (k : Nat) : Disk R T :=
   d.applyAll (trace.take k)
